@@ -66,6 +66,10 @@ def run(prop, tier, seed, root):
                         digests[k] = (digests.get(k, 0) + v) & 0x000fffffffffffff
                     for k, v in d.get("counters", {}).items():
                         counters[k] = counters.get(k, 0) + v
+                    out.setdefault("cfgs", [])
+                    out.setdefault("opsigs", [])
+                    out["cfgs"] = sorted(set(out["cfgs"]) | {f"{mode}:{c}" for c in d.get("cfgs", [])})
+                    out["opsigs"] = sorted(set(out["opsigs"]) | set(d.get("opsigs", [])))
                     for s in d.get("samples", [])[:2]:
                         if len(out["samples"]) < 10:
                             out["samples"].append(f"[{mode}] {s}")
